@@ -264,14 +264,28 @@ def run(ctx):
     from obligations.shape_tables import check_index_of
     check_index_of(ctx, 'C06.A3')
     # ---- A4 features from waveforms
-    pp = repo.func(M, '_project_pcs')
-    S = Shape(repo, inline_depth=1)
     Spk, Ch = B('Spk'), B('Ch')
-    res = S.result(pp, {'x': Arr((Spk, Samp, Ch), RAW), 'pcs': Arr((PC, Samp, Ch), Q())})
-    nrep += flush(ctx, S, '_project_pcs')
-    ctx.check(isinstance(res, Arr) and res.axes == (Spk, Ch, PC), 'C06.A4', pp, '_project_pcs', 'projection contracts samples and returns (spike, channel, component)',
-              '_project_pcs returns %s, expected (spike, channel, component) with the sample axis contracted' % res, value=res)
     cf = repo.func(M, 'compute_features')
+    if repo.has_func(M, '_project_pcs'):
+        pp = repo.func(M, '_project_pcs')
+        S = Shape(repo, inline_depth=1)
+        res = S.result(pp, {pp.params[0]: Arr((Spk, Samp, Ch), RAW), pp.params[1]: Arr((PC, Samp, Ch), Q())})
+        nrep += flush(ctx, S, '_project_pcs')
+        ctx.check(isinstance(res, Arr) and res.axes == (Spk, Ch, PC), 'C06.A4', pp, '_project_pcs', 'projection contracts samples and returns (spike, channel, component)',
+                  '_project_pcs returns %s, expected (spike, channel, component) with the sample axis contracted' % res, value=res)
+    else:
+        # the projection helper was merged into compute_features: the contraction is judged there (an einsum / tensordot of the components with the waveforms)
+        es = [c_ for c_ in cf.calls() if dotted(c_.func) in ('np.einsum', 'np.tensordot')]
+        sub = const_value(es[0].args[0]) if es and dotted(es[0].func) == 'np.einsum' and es[0].args else None
+        ok_ = isinstance(sub, str) and sub.replace(' ', '') in ('ijk,ljk->lki', 'ljk,ijk->lki') and len(es[0].args) == 3
+        if ok_:
+            first_pcs = sub.replace(' ', '').startswith('ijk')
+            a_pcs, a_x = (es[0].args[1], es[0].args[2]) if first_pcs else (es[0].args[2], es[0].args[1])
+            ok_ = Pat().m(cf.params[0], cf.expand(a_x))
+        ctx.tri(bool(ok_), bool(es) and isinstance(sub, str) and not ok_ and '->' in sub, 'C06.A4', cf, es[0] if es else 'compute_features',
+                'projection contracts samples and returns (spike, channel, component) (einsum in compute_features)',
+                'the projection `%s` does not contract the sample axis of the given waveforms into (spike, channel, component)' % (unparse(es[0])[:70] if es else ''),
+                'the projection of the waveforms on their components was not recognised')
     c = [x for x in cf.calls() if dotted(x.func) == '_compute_pcs']
     npc = cf.expand(q.arg(c[0], 1, 'npcs')) if c and q.arg(c[0], 1, 'npcs') is not None else None
     a0_ = cf.expand(c[0].args[0]) if c and c[0].args else None
@@ -281,6 +295,8 @@ def run(ctx):
             'the call computing the principal components was not recognised')
     pj = [x for x in cf.calls() if dotted(x.func) == '_project_pcs']
     pj0 = cf.expand(pj[0].args[0]) if pj and pj[0].args else None
+    if not pj and not repo.has_func(M, '_project_pcs'):
+        pj0 = ast.Name(id=cf.params[0], ctx=ast.Load()) if any(dotted(c_.func) in ('np.einsum', 'np.tensordot') for c_ in cf.calls()) else None     # judged above
     ctx.tri(pj0 is not None and Pat().m(cf.params[0], pj0), pj0 is not None and isinstance(pj0, (ast.Name, ast.Subscript)) and not Pat().m(cf.params[0], pj0), 'C06.A4', cf,
             pj[0] if pj else 'compute_features', 'the same waveforms are projected on their components', 'the projected data are not the given waveforms', 'the projection call was not recognised')
     cp_ = repo.func(M, '_compute_pcs')
